@@ -33,10 +33,10 @@ var BloomOps = []string{"Add:x", "Add:y", "AddHash", "AddOutPoint", "Matches:x",
 var (
 	itemX = append([]byte{0x02}, bytes.Repeat([]byte{0x5a}, 32)...) // 33 bytes: also a P2PK key push
 	itemY = []byte("y-item")
-	// itemL: 300 non-uniform bytes (longer than any key, hash or outpoint: a path that treats long
+	// itemL: 520 non-uniform bytes (the largest script element; longer than any key, hash or outpoint: a path that treats long
 	// items specially - hashing them outside the critical section, say - is taken by this item only)
 	itemL = func() []byte {
-		b := make([]byte, 300)
+		b := make([]byte, 520)
 		for i := range b {
 			b[i] = byte(i*131+i>>3) ^ 0x5c
 		}
@@ -68,6 +68,8 @@ func geom(g string) (int, uint32) {
 		return 8, 2
 	case "4x8": // 4 bytes, EIGHT functions (the usual counts are 5..20: code may treat "many functions" specially)
 		return 4, 8
+	case "4x50": // 4 bytes, FIFTY functions (the wire maximum): item length x function count is large
+		return 4, 50
 	}
 	return 1, 2
 }
@@ -87,6 +89,8 @@ func reloadBytes(g string) []byte {
 		return make([]byte, 5)
 	case "4x8":
 		return make([]byte, 3)
+	case "4x50": // the reload message has the SAME size (and another tweak): a check "has the size changed?" does not notice it
+		return make([]byte, 4)
 	}
 	return []byte{0xff, 0xff}
 }
